@@ -213,6 +213,64 @@ func runC02(c *ShardCtx) {
 			}
 		}
 	}
+	// line / column family: terminals that span or follow line ends - literals with a newline as
+	// first, middle, last and only rune, CR LF, a non-ASCII rune next to a newline, classes and
+	// the any matcher consuming a newline - in pairs (adjacent literals are joined by
+	// -optimize-grammar), a probe after each; every generation flag set
+	{
+		lit := peg.Lit
+		terms := []func() *peg.Expr{
+			func() *peg.Expr { return lit("\n") }, func() *peg.Expr { return lit("\n\n") }, func() *peg.Expr { return lit("\na") }, func() *peg.Expr { return lit("a\n") },
+			func() *peg.Expr { return lit("a\nb") }, func() *peg.Expr { return lit("\r\n") }, func() *peg.Expr { return lit("é\n") }, func() *peg.Expr { return peg.LitI("\nA") },
+			func() *peg.Expr { return peg.Cls(false, false, "\n", "a") }, func() *peg.Expr { return peg.Cls(true, false, "a") }, func() *peg.Expr { return peg.Any() }, func() *peg.Expr { return lit("ab") },
+		}
+		var gens8 []core.Gen
+		for m := 0; m < 8; m++ {
+			gens8 = append(gens8, core.Gen{Optimize: m&1 != 0, BasicLatin: m&2 != 0, OptGrammar: m&4 != 0})
+		}
+		lineInputs := peg.Inputs([]string{"a", "\n", "b"}, 4)
+		for _, s := range []string{"\r\n", "\r\n\n", "é\n", "é\na", "\nA", "\na\n\n", "a\nb\n\n", "\n\n\n\n\n"} {
+			lineInputs = append(lineInputs, []byte(s))
+		}
+		for _, t1 := range terms {
+			for _, t2 := range terms {
+				idx++
+				if !c.Mine(idx) {
+					continue
+				}
+				if c.Expired("line/column family") {
+					return
+				}
+				for shape := 0; shape < 2; shape++ {
+					body := peg.Seq(peg.Label("x", t1()), peg.AndCode(0), peg.Label("y", peg.Opt(t2())), peg.AndCode(0), peg.Label("z", peg.Star(peg.Action(0, peg.Any()))))
+					if shape == 1 {
+						// two adjacent literals (joined by -optimize-grammar) after a backtracked attempt
+						body = peg.Seq(peg.Choice(peg.Seq(t1(), t2(), lit("q")), peg.Seq(t1(), t2())), peg.AndCode(0), peg.Label("z", peg.Opt(peg.Action(0, peg.Any()))))
+					}
+					g := &peg.Grammar{Rules: []*peg.Rule{{Name: "S", Expr: peg.Action(0, body)}}}
+					peg.Renumber(g, 1)
+					peg.AssignArgs(g)
+					scripts := []map[int]*rtapi.Block{nil}
+					for _, gen := range gens8 {
+						co := core.CmpOpts{SkipNoMatch: true}
+						if gen.OptGrammar {
+							co.FlatVal, co.EventKey = true, flatKey(nil)
+						}
+						runGrammar(c, g, &family{gens: []core.Gen{gen}, inputs: lineInputs, opts: []rtapi.RunOpts{{MaxExpr: 600, Filename: "f"}}, scripts: scripts, nontrivial: nontriv, confEvery: 97, confQuota: 1, cmp: co})
+						c.Res.Grammars--
+					}
+					c.Res.Grammars++
+				}
+			}
+		}
+	}
+	// cross family (cross.go): every construct x every flag set; the complete block log
+	{
+		if !runCross(c, &idx, &crossSpec{maxSize: 3, gens: gens16, inputs: crossInputsSmall, opts: []rtapi.RunOpts{{MaxExpr: 600, Filename: "f"}}, scripts: crossPredScripts, nontrivial: nontriv,
+			cmp: core.CmpOpts{SkipNoMatch: true}}) {
+			return
+		}
+	}
 	for size := 1; size <= n; size++ {
 		for _, body := range en.Size(size) {
 			for _, lab := range labelings(body, 2) {
